@@ -90,6 +90,57 @@ def pinnedB (t : Target) (v : JVal) : Bool :=
    | some n => metaKey "namespace" v == some (.str n)
    | none => true)
 
+
+/-! ## `convert_bools`: CEL map keys become text (F18)
+
+  The kind/name overlay is applied to CEL values, whose map keys are typed: the text key `name` and a
+  bytes key are different keys.  `convert_bools` (src/koreo/cel/encoder.py) then builds
+  `{convert(k): convert(v) for k, v in m.items()}`; a bytes key becomes its base64 text, so two keys can
+  fold onto one and the later entry replaces the earlier one's value.  REPAIRED `_pin_identity`
+  (reconcile/__init__.py) lays the kind/name overlay over the converted object once more. -/
+
+/-- a CEL map key: text, or bytes given by their base64 text -/
+inductive CKey where
+  | text (s : String)
+  | bytes (b64 : String)
+  deriving Repr
+
+/-- `convert_bools` on a key -/
+def CKey.converted : CKey → String
+  | .text s => s
+  | .bytes b => b
+
+/-- a CEL value as far as key conversion goes: maps with typed keys over already plain leaves -/
+inductive CVal where
+  | plain (v : JVal)
+  | map (kvs : List (CKey × CVal))
+
+
+/-- put an EARLIER entry under the entries that follow it: the later value wins, the earlier position stays -/
+def convertOnto (k : String) (v : JVal) (later : Fields) : Fields :=
+  match JVal.lookup k later with
+  | some w => (k, w) :: JVal.erase k later
+  | none => (k, v) :: later
+
+mutual
+/-- `convert_bools` -/
+def convert : CVal → JVal
+  | .plain v => v
+  | .map kvs => .obj (convertKvs kvs)
+/-- the dict comprehension, entry by entry: `d[convert(k)] = convert(v)` (a later entry with the same
+    converted key replaces the value, at the earlier entry's position) -/
+def convertKvs : List (CKey × CVal) → Fields
+  | [] => []
+  | (k, v) :: rest => convertOnto k.converted (convert v) (convertKvs rest)
+end
+
+/-- REPAIRED `_pin_identity(converted, forced_overlay)`: apiVersion / kind are set, `metadata` is
+    updated with name / namespace (and becomes that map when it was not one) — on an object this is
+    the forced overlay once more -/
+def pinIdentity (t : Target) : JVal → JVal
+  | .obj kvs => deepOverlay (.obj kvs) (forced t)
+  | v => v
+
 /-! ## kr8s: objects and requests -/
 
 /-- the kr8s class `_prepare_api_config` builds / looks up -/
